@@ -110,3 +110,10 @@ def opaque(f):
 
 SPEC_NAMES = ['implies', 'iff', 'forall', 'exists', 'ite', 'approx', 'close', 'is_none', 'same_object', 'raw',
               'is_quantity', 'is_number', 'seq_len', 'eq', 'idx_of']
+
+
+def is_nan(x):
+    return isinstance(x, float) and x != x
+
+
+SPEC_NAMES.append('is_nan')
